@@ -39,6 +39,13 @@ def run(ctx: Ctx):
     model = ctx.model
     from .common_node import names_resolve
     names_resolve(ctx, "C15-RN")
+    from .common_codec import no_hidden_state
+    _mb = model.cls("message._base", "Message")
+    _hb = model.cls("message._base", "MessageHeader")
+    no_hidden_state(ctx, "C15-R11", [m_ for m_ in (_mb.methods.get("as_bytes"), _hb.methods.get("as_bytes")) if m_],
+                    set())
+    from .common_codec import no_shared_default_objects
+    no_shared_default_objects(ctx, "C15-R10", [f_ for f_ in model.all_funcs() if ".node" in f_.module.name], "the node package")
     peer = model.module("node.peer")
     node = model.module("node.node")
     pc = peer.classes.get("PeerConnection")
@@ -168,11 +175,16 @@ def run(ctx: Ctx):
     putters = [c for c in call_sites(model, "put") + call_sites(model, "put_nowait")
                if c.receiver.endswith("." + QUEUE)]
     ctx.inst("encoder:consumers", sample=[g.where for g in getters])
-    if len(getters) != 1 or getters[0].func.cls is not pc:
-        where = getters[1].where if len(getters) > 1 else pc.loc()
+    # one consumer: every site that takes messages out of the queue lies in one function of
+    # PeerConnection, the writer's thread function (it may take several per turn)
+    cfuncs = {id(g_.func.node) for g_ in getters}
+    if not getters or len(cfuncs) != 1 or getters[0].func.cls is not pc:
+        other = [g_ for g_ in getters if g_.func is not getters[0].func or g_.func.cls is not pc]
+        where = other[0].where if other else pc.loc()
         ctx.fail("encoder:consumers", where,
-                 f"{QUEUE} has {len(getters)} consumer site(s); exactly one (the writer "
-                 f"thread) is required for FIFO, exactly-once encoding")
+                 f"{QUEUE} is consumed in {len(cfuncs)} function(s) "
+                 f"({sorted({g_.func.qualname for g_ in getters})}); exactly one (the writer "
+                 f"thread's) is required for FIFO, exactly-once encoding")
     enc = getters[0].func if getters else None
     ctx.inst("encoder:producers", sample=[p.where for p in putters])
     if not putters:
@@ -350,13 +362,46 @@ def _operand_is_dequeued_msg(site, operand: ast.expr):
             and isinstance(operand.func.value, ast.Name)):
         return False, "operand is not a call <name>.as_bytes()"
     var = operand.func.value.id
-    defs = [d.value for d in _single_def(site.func.node, var)]
+    fn = site.func.node
+
+    def is_get(d):
+        return (isinstance(d, ast.Call) and isinstance(d.func, ast.Attribute)
+                and d.func.attr in ("get", "get_nowait")
+                and A.dotted(d.func.value) == f"self.{QUEUE}")
+
+    def from_get(e):
+        if is_get(e):
+            return True
+        if isinstance(e, ast.Name):
+            ds = [d.value for d in _single_def(fn, e.id)]
+            return len(ds) == 1 and is_get(ds[0])
+        return False
+    defs = [d.value for d in _single_def(fn, var)]
+    if not defs:
+        # `for var in batch:` over a local list that holds nothing but messages taken from the
+        # queue, in the order they were taken (list display + append only)
+        loops = [x for x in ast.walk(fn) if isinstance(x, ast.For) and isinstance(x.target, ast.Name)
+                 and x.target.id == var and isinstance(x.iter, ast.Name)]
+        if len(loops) == 1:
+            lst = loops[0].iter.id
+            ldefs = [d.value for d in _single_def(fn, lst)]
+            ok = len(ldefs) == 1 and isinstance(ldefs[0], ast.List) and all(from_get(e) for e in ldefs[0].elts)
+            for x in ast.walk(fn):
+                if isinstance(x, ast.Call) and isinstance(x.func, ast.Attribute) \
+                        and isinstance(x.func.value, ast.Name) and x.func.value.id == lst:
+                    if x.func.attr == "append" and len(x.args) == 1 and from_get(x.args[0]):
+                        continue
+                    ok = False
+                elif isinstance(x, (ast.Subscript, ast.Delete)) and lst in ast.unparse(x) \
+                        and isinstance(getattr(x, "ctx", None), (ast.Store, ast.Del)):
+                    ok = False
+            if ok:
+                return True, ""
+            return False, f"{var} iterates over `{lst}`, which is not a list of messages taken from self.{QUEUE} in order"
     if len(defs) != 1:
         return False, f"{var} has {len(defs)} definitions"
     d = defs[0]
-    if not (isinstance(d, ast.Call) and isinstance(d.func, ast.Attribute)
-            and d.func.attr in ("get", "get_nowait")
-            and A.dotted(d.func.value) == f"self.{QUEUE}"):
+    if not is_get(d):
         return False, f"{var} is not taken from self.{QUEUE}.get(...)"
     return True, ""
 
